@@ -174,7 +174,7 @@ PROPS = {
         technique='Verus full functional postconditions on every public function of src/build.rs (audited by name against the unit), the src/ty constructors incl. TypeDefTuple::new (rule R20) and the accessors, verified twice (docs feature on / off)',
         level_text='Every builder step is proved to produce exactly the supplied component and leave all others unchanged (FieldBuilder, VariantBuilder, Variants, FieldsBuilder, TypeBuilder, Type::new, Field::new, Variant::new, TypeDef*::new); MetaForm push_field lists a field unless its type is PhantomData, PortableForm push_field always; docs()/docs_portable() keep docs exactly with the docs feature and are the identity without it, docs_always() always keeps them. Closure-taking builders are specified through the closure\'s own requires/ensures.',
         level_note='TypeDefTuple::new (`into_iter().filter(|ty| !ty.is_phantom()).collect()`; the prophetic Filter spec of vstd cannot be connected to Seq::filter) IS verified after rule R20 (an iterator pipeline ending in collect into a Vec is replaced by the loop std defines it by: next() until None, results pushed in order): the result is exactly the non-phantom members in order; the native enumeration of all member triples runs it on the real iterators (CBMC ran out of memory on a Kani harness for it). MetaType::new / is_phantom contracts are proved in unit metatype. Initial emptiness comes from the Default impls (verified). The derive\'s generated code is not in the repository and not covered. Assumed: to_vec contract.',
-        verus=[('build', ['*'])],
+        verus=[('build', ['*']), ('alias', ['tmpl::no_literal::*'])],
         # bounded cross-checks, on the real std code, of rule R20 (c) (filter + collect) and of the to_vec / String::from contracts
         kani_quick=['std_filter_collect_is_the_loop'], kani_thorough=['std_filter_collect_is_the_loop', 'std_string_from_and_to_vec_small'],
         assumptions=['A4', 'A8', 'A12', 'VSTD', 'TOOLS'],
@@ -205,9 +205,9 @@ PROPS = {
         title='SCALE wire format of the registry is the published V14 layout, byte for byte',
         level='proof',
         technique='Verus contracts on the code generated by the codec derive (taken from rustc -Zunpretty=expanded of the working tree): each encode_to appends exactly the published layout, each decode is sound / canonical / complete for it; assumed model of the dependency primitives',
-        level_text='For all 17 types the registry is made of, the derive-generated encode_to is proved to append exactly enc(self), where enc is the published V14 layout written compositionally from the statement (definition tags 0..7, primitive tags 0..14, array = u32 LE length then id, bit-sequence = store then order, field / variant / parameter / type / entry member order, compact ids, u8 index) - for ALL registries, strings and ids, no bound. The derive-generated decoders are proved sound, canonical and complete for the same layout (lemma_registry: the decoder\'s denc equals the encoder\'s enc), i.e. an independent decoder written from the layout agrees with the library.',
+        level_text='For all 17 types the registry is made of, the derive-generated encode_to is proved to append exactly enc(self) - and the seven `encode()` overrides the derive emits for single-member structs (PortableRegistry::encode, the method users call, among them) to return exactly enc(self) -, where enc is the published V14 layout written compositionally from the statement (definition tags 0..7, primitive tags 0..14, array = u32 LE length then id, bit-sequence = store then order, field / variant / parameter / type / entry member order, compact ids, u8 index) - for ALL registries, strings and ids, no bound. The derive-generated decoders are proved sound, canonical and complete for the same layout (lemma_registry: the decoder\'s denc equals the encoder\'s enc), i.e. an independent decoder written from the layout agrees with the library.',
         level_note='Assumed: the model of parity-scale-codec\'s own Encode/Decode impls for u8, u32, Compact<u32>, String, Option, Vec, PhantomData, &T and of its Input/Output traits (module `scale` in contracts/codec.vrs) - dependency code, not verified. Rules R14 (compile-time `const _` assertion blocks dropped), R15 (::scale:: paths), R16 (immediately invoked `move` closures in enum decoders inlined). Kani cross-check of the real dependency on the leaves (complete harnesses) and native comparison with an independent encoder/decoder on enumerated registries run alongside and are listed as bounded.',
-        verus=[('codec', ['crate::scale::Encode for *::encode_to', 'crate::scale::Decode for *::decode', 'tmpl::lemma_*'])],
+        verus=[('codec', ['crate::scale::Encode for *::encode_to', 'crate::scale::Encode for *::encode', 'crate::scale::Decode for *::decode', 'tmpl::lemma_*'])],
         # the complete Kani leaves execute the REAL dependency (Compact<u32>, u32, u8 encoders): they cross-check the assumed model on its scalars
         # ... and the complete decode leaves run its Compact<u32> / u32 / Option decoders and the derived decoders of the leaf types on EVERY input
         kani_quick=['enc_symbol_compact', 'enc_def_primitive', 'enc_def_array', 'dec_compact_u32_all_inputs', 'dec_symbol_all_inputs', 'dec_primitive_all_inputs'],
@@ -236,7 +236,7 @@ PROPS = {
                    'and the assumptions of C01/C02/C06/C17 for the units reused here. Feature-dependent derives (Decode, Serialize, JsonSchema) do not touch the Encode path; the expansion is '
                    'nevertheless taken from rustc under each configuration.',
         verus=[('build', ['*']), ('interner', INTERNER_ITEMS), ('registry', REGISTRY_ITEMS), ('registry_impls', IMPL_ITEMS),
-               ('portable', ['From<Registry> for PortableRegistry::from', 'Registry::types']), ('codec', ['crate::scale::Encode for *::encode_to']),
+               ('portable', ['From<Registry> for PortableRegistry::from', 'Registry::types']), ('codec', ['crate::scale::Encode for *::encode_to', 'crate::scale::Encode for *::encode']),
                ('path', ['is_rust_identifier', 'Path<MetaForm>::from_segments', 'Path<T>::from_segments_unchecked', 'Path<T>::voldemort'])],
         verus_configs={u: [('-nostd', ()), ('-decode', ('decode',)), ('-std', ('std',)), ('-all', ('std', 'serde', 'decode', 'bit-vec', 'schema'))] +
                           ([('-nostd-docs', ('docs',)), ('-all-docs', ('std', 'serde', 'decode', 'bit-vec', 'schema', 'docs'))] if u == 'build' else [])
@@ -268,7 +268,7 @@ PROPS = {
         technique='Verus: round-trip, canonicity and injectivity theorems over the verified contracts of the derive-generated encode_to / decode functions',
         level_text='theorem_roundtrip: an input that starts with the bytes the library encoder writes for a registry decodes to exactly that registry and leaves exactly the rest (for every PortableRegistry value, well-formed or not). Encoding is deterministic because encode_to is proved to append the value of the spec function enc. theorem_injective: two registries with the same encoding are equal (both are what the verified decoder returns on it). The theorems call the real extracted decoder, whose contract (sound, canonical, complete) is proved for all 17 generated decode functions.',
         level_note='Assumed: the model of the dependency primitives (see C06) - in particular that the primitive decoders are complete and canonical (true of parity-scale-codec 3: Compact rejects non-minimal encodings, String validates UTF-8). Injectivity is stated for encodings consumed by an Input; any byte string can be one.',
-        verus=[('codec', ['crate::scale::Encode for *::encode_to', 'crate::scale::Decode for *::decode', 'tmpl::lemma_*', 'tmpl::theorem_*'])],
+        verus=[('codec', ['crate::scale::Encode for *::encode_to', 'crate::scale::Encode for *::encode', 'crate::scale::Decode for *::decode', 'tmpl::lemma_*', 'tmpl::theorem_*'])],
         # the complete decode leaves run the real dependency decoders the theorems assume to be sound / canonical / complete, on every input
         kani_quick=['dec_compact_u32_all_inputs', 'dec_option_symbol_all_inputs'], kani_thorough=['dec_compact_u32_all_inputs', 'dec_option_symbol_all_inputs', 'dec_symbol_all_inputs', 'dec_array_all_inputs', 'dec_bitsequence_all_inputs'],
         assumptions=['CODEC', 'VSTD', 'TOOLS'],
